@@ -89,7 +89,9 @@ DtObs == [ObsOk EXCEPT !.pos = Ev.pos, !.lemax = Ev.lemax, !.isinit = Ev.isinit]
 
 \* every update but the first of the run starts from what the previous one returned (also across the stage restart)
 FirstUpdate == step = 0 /\ stage = (IF cfg.thermal THEN 1 ELSE 2)
+\* ... and the very first update of a run starts with tentative_dt = dt_init (InitWith), whatever the run was seeded from
 FBegin == /\ IsEv("begin") /\ BeginCtl /\ step = Ev.step /\ (FirstUpdate \/ "carried" \in Rels)
+          /\ (FirstUpdate => "tentinit" \in Rels)
           /\ obs' = ObsOk /\ UNCHANGED nvars
 FLinks == /\ IsEv("links") /\ LinksCtl /\ "iterate" \in Rels /\ obs' = ObsOk /\ UNCHANGED nvars
 FRefuse == /\ IsEv("attempt") /\ Ev.refused /\ RefuseCtl /\ NeedDt \in Rels /\ obs' = DtObs /\ UNCHANGED nvars
